@@ -69,3 +69,31 @@ class StrictLoader(loaders.DefaultObjectLoader):
             self.refused.append(identifier)
             raise ValueError(f'identifier `{identifier}` is not allowed')
         return super().load_object(identifier)
+
+
+class RegistryLoader(TagLoader):
+    """A loader with a registry of classes that have no importable name (built by a class factory): it can name and
+    construct them; everything else goes the TagLoader way."""
+
+    PREFIX = 'tag!'
+    loads = 0
+    owned_loads = 0
+    identifies = 0
+
+    def __init__(self, registry=None):
+        super().__init__()
+        self.registry = dict(registry or {})
+
+    def identify_object(self, obj):
+        for name, cls in self.registry.items():
+            if cls is obj:
+                TagLoader.identifies += 1
+                return 'reg!' + name
+        return super().identify_object(obj)
+
+    def load_object(self, identifier):
+        if identifier.startswith('reg!'):
+            TagLoader.loads += 1
+            TagLoader.owned_loads += 1
+            return self.registry[identifier[4:]]
+        return super().load_object(identifier)
